@@ -2,7 +2,7 @@ from common import *
 
 CONFIG = {
     'props_file': 'Props/C04.v',
-    'level': 'partial: the theorems are about the section machine of Model/Lin.v (every call = a sequence of atomic critical '
+    'level_text': 'PARTIAL: the theorems are about the section machine of Model/Lin.v (every call = a sequence of atomic critical '
              'sections, any interleaving of sections, any number of threads and calls); the Go scheduler, the Go memory model and '
              'preemption inside a critical section are outside the model, and the bounded quantifier of the property (2-4 goroutines '
              'x 1-4 ops) is covered by search (recorded histories checked against the extracted sequential model), not by proof',
